@@ -32,6 +32,7 @@ type namedTerm struct {
 }
 
 type Session struct {
+	mapRanges map[*Frame]map[*ssa.Range]*mapRangeInfo // ghost produced-key sets of map ranges (maprange.go)
 	curOrigin     string   // where the assertions made now come from ("post:update#1", "inv#1", "requires", "at:update#1")
 	assertOrigins []string // per assertion
 	fnCells map[string]Val // function values stored in local cells (by cell reference)
